@@ -391,6 +391,321 @@ theorem C08_rename_step {F P W : Type} (s s' : FS F P W) (old new : String)
           | dir k => simp at h
           | file f => exact hfin _ rfl h
 
+/-! ### Error tables of the directory operations ("fails exactly when …") -/
+
+/-- **Mkdir** succeeds exactly when the parent path resolves to a directory, the last component is a
+proper name and nothing of that name exists; then the new directory is reachable under that name.
+Every failure leaves the state unchanged. -/
+theorem C08_mkdir_table {F P W : Type} (impl : FileImpl F P W) (s : FS F P W) (path : String) :
+    ((doMkdir impl s path).2 = Res.err Err.ok ↔
+      ∃ d, lookupDir s (splitDirBase path).1 = Except.ok d ∧ special (splitDirBase path).2 = false ∧
+        child s.ents d (splitDirBase path).2 = none) ∧
+    ((doMkdir impl s path).2 ≠ Res.err Err.ok → (doMkdir impl s path).1 = s) ∧
+    (∀ d, lookupDir s (splitDirBase path).1 = Except.ok d → (doMkdir impl s path).2 = Res.err Err.ok →
+      child (doMkdir impl s path).1.ents d (splitDirBase path).2 = some (Node.dir s.dirs.length)) := by
+  unfold doMkdir
+  generalize splitDirBase path = sp
+  obtain ⟨dcomps, name⟩ := sp
+  dsimp only
+  cases hl : lookupDir s dcomps with
+  | error e =>
+    have he := lookupDir_err s dcomps e hl
+    dsimp only
+    refine ⟨⟨?_, ?_⟩, (fun _ => rfl), ?_⟩
+    · intro h; rw [Res.err.injEq] at h; exact absurd h he
+    · rintro ⟨d, h, _⟩; cases h
+    · intro d h; cases h
+  | ok d =>
+    dsimp only
+    by_cases hsp : special name = true
+    · rw [if_pos hsp]
+      refine ⟨⟨?_, ?_⟩, (fun _ => rfl), ?_⟩
+      · intro h; cases h
+      · rintro ⟨_, _, h, _⟩; rw [hsp] at h; cases h
+      · intro _ _ h; cases h
+    · rw [if_neg hsp]
+      have hsp' : special name = false := by cases h : special name <;> simp_all
+      cases hc : child s.ents d name with
+      | some n =>
+        dsimp only
+        refine ⟨⟨?_, ?_⟩, (fun _ => rfl), ?_⟩
+        · intro h; cases h
+        · rintro ⟨d', h1, _, h3⟩; cases h1; rw [hc] at h3; cases h3
+        · intro _ _ h; cases h
+      | none =>
+        dsimp only
+        refine ⟨⟨(fun _ => ⟨d, rfl, hsp', hc⟩), (fun _ => rfl)⟩, (fun h => absurd rfl h), ?_⟩
+        intro d' h _
+        cases h
+        show child (setEnt s.ents d name (Node.dir s.dirs.length)) d name = _
+        exact child_setEnt_self ..
+
+/-- **Remove** (non-recursive) succeeds exactly when the last component is a proper name, the parent
+resolves, the entry exists and is not a non-empty directory; then the name is gone. Every failure
+leaves the state unchanged. -/
+theorem C08_remove_table {F P W : Type} (s : FS F P W) (path : String) :
+    ((doRemove s path false).2 = Res.err Err.ok ↔
+      special (splitDirBase (trimSlashes path)).2 = false ∧
+      ∃ d n, lookupDir s (splitDirBase (trimSlashes path)).1 = Except.ok d ∧
+        child s.ents d (splitDirBase (trimSlashes path)).2 = some n ∧
+        (∀ k, n = Node.dir k → dirSize s k = 0)) ∧
+    ((doRemove s path false).2 ≠ Res.err Err.ok → (doRemove s path false).1 = s) ∧
+    (∀ d, lookupDir s (splitDirBase (trimSlashes path)).1 = Except.ok d →
+      (doRemove s path false).2 = Res.err Err.ok →
+      child (doRemove s path false).1.ents d (splitDirBase (trimSlashes path)).2 = none) := by
+  unfold doRemove
+  generalize splitDirBase (trimSlashes path) = sp
+  obtain ⟨dcomps, name⟩ := sp
+  dsimp only
+  by_cases hsp : special name = true
+  · rw [if_pos hsp]
+    refine ⟨⟨?_, ?_⟩, (fun _ => rfl), ?_⟩
+    · intro h; cases h
+    · rintro ⟨h, _⟩; rw [hsp] at h; cases h
+    · intro _ _ h; cases h
+  · rw [if_neg hsp]
+    have hsp' : special name = false := by cases h : special name <;> simp_all
+    cases hl : lookupDir s dcomps with
+    | error e =>
+      have he := lookupDir_err s dcomps e hl
+      dsimp only
+      refine ⟨⟨?_, ?_⟩, (fun _ => rfl), ?_⟩
+      · intro h
+        rw [Res.err.injEq, if_neg (fun hc => by cases hc.1)] at h
+        exact absurd h he
+      · rintro ⟨_, d, n, h, _⟩; cases h
+      · intro d h; cases h
+    | ok d =>
+      dsimp only
+      cases hc : child s.ents d name with
+      | none =>
+        dsimp only
+        refine ⟨⟨?_, ?_⟩, (fun _ => rfl), ?_⟩
+        · intro h; simp at h
+        · rintro ⟨_, d', n, h1, h2, _⟩; cases h1; rw [hc] at h2; cases h2
+        · intro _ _ h; simp at h
+      | some n =>
+        dsimp only
+        have hok : ∀ (hz : ∀ k, n = Node.dir k → dirSize s k = 0),
+            ((({ s with ents := eraseEnt s.ents d name }, Res.err Err.ok) : FS F P W × Res).2 = Res.err Err.ok ↔
+              special name = false ∧ ∃ d_1 n_1, (Except.ok d : Except Err Nat) = Except.ok d_1 ∧
+                child s.ents d_1 name = some n_1 ∧ ∀ k, n_1 = Node.dir k → dirSize s k = 0) ∧
+            ((({ s with ents := eraseEnt s.ents d name }, Res.err Err.ok) : FS F P W × Res).2 ≠ Res.err Err.ok →
+              (({ s with ents := eraseEnt s.ents d name }, Res.err Err.ok) : FS F P W × Res).1 = s) ∧
+            (∀ d_1, (Except.ok d : Except Err Nat) = Except.ok d_1 →
+              (({ s with ents := eraseEnt s.ents d name }, Res.err Err.ok) : FS F P W × Res).2 = Res.err Err.ok →
+              child (({ s with ents := eraseEnt s.ents d name }, Res.err Err.ok) : FS F P W × Res).1.ents d_1 name = none) := by
+          intro hz
+          refine ⟨⟨(fun _ => ⟨hsp', d, n, rfl, hc, hz⟩), (fun _ => rfl)⟩, (fun h => absurd rfl h), ?_⟩
+          intro d' h1 _
+          cases h1
+          exact child_eraseEnt_self ..
+        cases n with
+        | file f =>
+          rw [if_neg (by simp)]
+          exact hok (fun k h => by cases h)
+        | dir k =>
+          by_cases hk : dirSize s k > 0
+          · rw [if_pos (by simp [hk])]
+            refine ⟨⟨?_, ?_⟩, (fun _ => rfl), ?_⟩
+            · intro h; cases h
+            · rintro ⟨_, d', n', h1, h2, h3⟩
+              cases h1; rw [hc] at h2; cases h2
+              have := h3 k rfl; omega
+            · intro _ _ h; cases h
+          · rw [if_neg (by simp [hk])]
+            exact hok (fun k' h => by cases h; omega)
+
+/-- **RemoveAll** fails only for an improper last component or when the parent path runs through a
+file (ErrNotADirectory); a missing entry or parent is success, and an existing entry — file or
+directory, empty or not — is removed. -/
+theorem C08_removeAll_table {F P W : Type} (s : FS F P W) (path : String) :
+    ((doRemove s path true).2 = Res.err Err.ok ↔
+      special (splitDirBase (trimSlashes path)).2 = false ∧
+      lookupDir s (splitDirBase (trimSlashes path)).1 ≠ Except.error Err.notdir) ∧
+    (∀ d, lookupDir s (splitDirBase (trimSlashes path)).1 = Except.ok d →
+      special (splitDirBase (trimSlashes path)).2 = false →
+      child (doRemove s path true).1.ents d (splitDirBase (trimSlashes path)).2 = none) := by
+  unfold doRemove
+  generalize splitDirBase (trimSlashes path) = sp
+  obtain ⟨dcomps, name⟩ := sp
+  dsimp only
+  by_cases hsp : special name = true
+  · rw [if_pos hsp]
+    refine ⟨⟨?_, ?_⟩, ?_⟩
+    · intro h; cases h
+    · rintro ⟨h, _⟩; rw [hsp] at h; cases h
+    · intro _ _ h; rw [hsp] at h; cases h
+  · rw [if_neg hsp]
+    have hsp' : special name = false := by cases h : special name <;> simp_all
+    cases hl : lookupDir s dcomps with
+    | error e =>
+      dsimp only
+      have hcls : e = Err.notdir ∨ e = Err.noent := by
+        unfold lookupDir at hl
+        cases hw : walk s.ents s.dirs (Node.dir 0) dcomps with
+        | error e' =>
+          rw [hw] at hl
+          simp [throw, throwThe, MonadExceptOf.throw] at hl
+          rw [← hl]; exact walk_err _ _ _ hw
+        | ok n =>
+          rw [hw] at hl
+          cases n with
+          | dir d => simp [pure, Except.pure] at hl
+          | file f => simp [throw, throwThe, MonadExceptOf.throw] at hl; exact Or.inl hl.symm
+      refine ⟨⟨?_, ?_⟩, ?_⟩
+      · intro h
+        refine ⟨hsp', ?_⟩
+        intro hc; cases hc
+        rw [Res.err.injEq, if_neg (fun hc => by cases hc.2)] at h
+        cases h
+      · rintro ⟨_, h⟩
+        rcases hcls with h1 | h1
+        · rw [h1] at h; exact absurd rfl h
+        · rw [h1, if_pos ⟨rfl, rfl⟩]
+      · intro d h; cases h
+    | ok d =>
+      dsimp only
+      cases hc : child s.ents d name with
+      | none =>
+        dsimp only
+        refine ⟨⟨(fun _ => ⟨hsp', fun h => by cases h⟩), (fun _ => rfl)⟩, ?_⟩
+        intro d' h1 _; cases h1; exact hc
+      | some n =>
+        dsimp only
+        rw [if_neg (by simp)]
+        refine ⟨⟨(fun _ => ⟨hsp', fun h => by cases h⟩), (fun _ => rfl)⟩, ?_⟩
+        intro d' h1 _; cases h1
+        exact child_eraseEnt_self ..
+
+/-- **Rename** succeeds exactly when: the source's last component is a proper name, both parent
+paths resolve to directories, the target's last component is not `.`/`..`, the source entry exists,
+it is not a directory that is an ancestor-or-self of either parent ("moved into itself"), and the
+target name (the source name when the target ends in `/`) is not an existing directory. Every
+failure leaves the state unchanged. (What success does: `C08_rename_step`, `C08_rename_keeps_node`.) -/
+theorem C08_rename_table {F P W : Type} (s : FS F P W) (old new : String) :
+    ((doRename s old new).2 = Res.err Err.ok ↔
+      special (splitDirBase old).2 = false ∧
+      ((splitDirBase new).2 == "." || (splitDirBase new).2 == "..") = false ∧
+      ∃ od nd n, lookupDir s (splitDirBase old).1 = Except.ok od ∧
+        lookupDir s (splitDirBase new).1 = Except.ok nd ∧
+        child s.ents od (splitDirBase old).2 = some n ∧
+        (∀ k, n = Node.dir k →
+          (ancestors s.dirs s.dirs.length od ++ ancestors s.dirs s.dirs.length nd).contains k = false) ∧
+        (∀ k, child s.ents nd (if ((splitDirBase new).2 == "") = true then (splitDirBase old).2
+              else (splitDirBase new).2) ≠ some (Node.dir k))) ∧
+    ((doRename s old new).2 ≠ Res.err Err.ok → (doRename s old new).1 = s) := by
+  unfold doRename
+  generalize splitDirBase old = sp
+  obtain ⟨ocomps, oldname⟩ := sp
+  generalize splitDirBase new = sp2
+  obtain ⟨ncomps, newname0⟩ := sp2
+  dsimp only
+  by_cases hsp : special oldname = true
+  · rw [if_pos hsp]
+    refine ⟨⟨?_, ?_⟩, (fun _ => rfl)⟩
+    · intro h; cases h
+    · rintro ⟨h, _⟩; rw [hsp] at h; cases h
+  · rw [if_neg hsp]
+    have hsp' : special oldname = false := by cases h : special oldname <;> simp_all
+    cases hod : lookupDir s ocomps with
+    | error e =>
+      have he := lookupDir_err s ocomps e hod
+      dsimp only
+      refine ⟨⟨?_, ?_⟩, (fun _ => rfl)⟩
+      · intro h; rw [Res.err.injEq] at h; exact absurd h he
+      · rintro ⟨_, _, od, nd, n, h, _⟩; cases h
+    | ok od =>
+      dsimp only
+      by_cases hdot : (newname0 == "." || newname0 == "..") = true
+      · rw [if_pos hdot]
+        refine ⟨⟨?_, ?_⟩, (fun _ => rfl)⟩
+        · intro h; cases h
+        · rintro ⟨_, h, _⟩; rw [hdot] at h; cases h
+      · rw [if_neg hdot]
+        have hdot' : (newname0 == "." || newname0 == "..") = false := by
+          cases h : (newname0 == "." || newname0 == "..") <;> simp_all
+        cases hnd : lookupDir s ncomps with
+        | error e =>
+          have he := lookupDir_err s ncomps e hnd
+          dsimp only
+          refine ⟨⟨?_, ?_⟩, (fun _ => rfl)⟩
+          · intro h; rw [Res.err.injEq] at h; exact absurd h he
+          · rintro ⟨_, _, od', nd, n, _, h, _⟩; cases h
+        | ok nd =>
+          dsimp only
+          cases hch : child s.ents od oldname with
+          | none =>
+            dsimp only
+            refine ⟨⟨?_, ?_⟩, (fun _ => rfl)⟩
+            · intro h; simp at h
+            · rintro ⟨_, _, od', nd', n, h1, _, h3, _⟩; cases h1; rw [hch] at h3; cases h3
+          | some n =>
+            dsimp only
+            cases n with
+            | file f =>
+              dsimp only
+              rw [if_neg (by simp)]
+              have hself : ∀ k, Node.file f = Node.dir k →
+                  (ancestors s.dirs s.dirs.length od ++ ancestors s.dirs s.dirs.length nd).contains k = false :=
+                fun k h => by cases h
+              obtain ⟨newname, hnn⟩ : ∃ nn, nn = (if (newname0 == "") = true then oldname else newname0) := ⟨_, rfl⟩
+              rw [← hnn]
+              cases hex : child s.ents nd newname with
+              | none =>
+                dsimp only
+                refine ⟨⟨(fun _ => ⟨hsp', hdot', od, nd, _, rfl, rfl, hch, hself, fun k h => by rw [hex] at h; cases h⟩),
+                  (fun _ => rfl)⟩, (fun h => absurd rfl h)⟩
+              | some x =>
+                cases x with
+                | dir k' =>
+                  dsimp only
+                  refine ⟨⟨?_, ?_⟩, (fun _ => rfl)⟩
+                  · intro h; cases h
+                  · rintro ⟨_, _, od', nd', n', h1, h2, _, _, h5⟩
+                    cases h1; cases h2
+                    exact absurd hex (h5 k')
+                | file f' =>
+                  dsimp only
+                  refine ⟨⟨(fun _ => ⟨hsp', hdot', od, nd, _, rfl, rfl, hch, hself, fun k h => by rw [hex] at h; cases h⟩),
+                    (fun _ => rfl)⟩, (fun h => absurd rfl h)⟩
+            | dir k =>
+              dsimp only
+              by_cases hk : (ancestors s.dirs s.dirs.length od ++ ancestors s.dirs s.dirs.length nd).contains k = true
+              · rw [if_pos hk]
+                refine ⟨⟨?_, ?_⟩, (fun _ => rfl)⟩
+                · intro h; cases h
+                · rintro ⟨_, _, od', nd', n', h1, h2, h3, h4, _⟩
+                  cases h1; cases h2; rw [hch] at h3; cases h3
+                  have := h4 k rfl; rw [hk] at this; cases this
+              · rw [if_neg hk]
+                have hself : ∀ k', Node.dir k = Node.dir k' →
+                    (ancestors s.dirs s.dirs.length od ++ ancestors s.dirs s.dirs.length nd).contains k' = false := by
+                  intro k' h; cases h
+                  cases hh : (ancestors s.dirs s.dirs.length od ++ ancestors s.dirs s.dirs.length nd).contains k with
+                  | true => exact absurd hh hk
+                  | false => rfl
+                obtain ⟨newname, hnn⟩ : ∃ nn, nn = (if (newname0 == "") = true then oldname else newname0) := ⟨_, rfl⟩
+                rw [← hnn]
+                cases hex : child s.ents nd newname with
+                | none =>
+                  dsimp only
+                  refine ⟨⟨(fun _ => ⟨hsp', hdot', od, nd, _, rfl, rfl, hch, hself, fun k h => by rw [hex] at h; cases h⟩),
+                    (fun _ => rfl)⟩, (fun h => absurd rfl h)⟩
+                | some x =>
+                  cases x with
+                  | dir k' =>
+                    dsimp only
+                    refine ⟨⟨?_, ?_⟩, (fun _ => rfl)⟩
+                    · intro h; cases h
+                    · rintro ⟨_, _, od', nd', n', h1, h2, _, _, h5⟩
+                      cases h1; cases h2
+                      exact absurd hex (h5 k')
+                  | file f' =>
+                    dsimp only
+                    refine ⟨⟨(fun _ => ⟨hsp', hdot', od, nd, _, rfl, rfl, hch, hself, fun k h => by rw [hex] at h; cases h⟩),
+                      (fun _ => rfl)⟩, (fun h => absurd rfl h)⟩
+
 /-! ### Non-vacuity -/
 
 /-- a non-trivial state satisfying the invariant: the example file of Props/C08 under the name "f"
